@@ -63,6 +63,7 @@ fn write_file(sh: &mut Shared, name: &str, content: &[u8]) {
     }
     std::fs::write(p, content).unwrap();
     set_mtime(sh, name);
+    n2::verif::trace_push(format!("write {} {}", hex(name.as_bytes()), sh.clock));
 }
 
 fn set_mtime(sh: &mut Shared, name: &str) {
@@ -114,10 +115,18 @@ fn graph_dump(manifest_name: &str) -> (String, Vec<n2::verif::BuildDump>) {
         }
         write!(
             o,
-            " {} {}",
+            " {} {} {} {}",
             if b.cmdline.is_none() { 1 } else { 0 },
             match &b.pool {
                 Some(p) => format!("p{}", hex(p.as_bytes())),
+                None => "n".to_string(),
+            },
+            match &b.cmdline {
+                Some(c) => format!("c{}", hex(c.as_bytes())),
+                None => "n".to_string(),
+            },
+            match &b.rspfile {
+                Some((p, c)) => format!("r{}:{}", hex(p), hex(c.as_bytes())),
                 None => "n".to_string(),
             }
         )
@@ -200,12 +209,23 @@ impl n2::verif::Executor for Exec {
         if has("fail") {
             term = 1;
         }
-        let deps: Option<Vec<String>> = val("deps=").map(|v| {
+        let mut deps: Option<Vec<String>> = val("deps=").map(|v| {
             v.split(';')
                 .filter(|s| !s.is_empty())
                 .map(|s| s.to_string())
                 .collect()
         });
+        // depsfrom=<file>: the reported dependencies are the "#include <name>" lines of that file
+        if let Some(src) = val("depsfrom=") {
+            let text = String::from_utf8_lossy(&read_opt(&src)).into_owned();
+            let mut ds = deps.take().unwrap_or_default();
+            for l in text.lines() {
+                if let Some(n) = l.strip_prefix("#include ") {
+                    ds.push(n.trim().to_string());
+                }
+            }
+            deps = Some(ds);
+        }
         let output = val("out=").map(|h| unhex(&h)).unwrap_or_default();
         let writes = term == 0 || has("partial");
         if writes {
@@ -243,6 +263,19 @@ impl n2::verif::Executor for Exec {
                     }
                 }
                 write_file(&mut sh, o, &content);
+            }
+        }
+        if term == 0 {
+            if let Some(ds) = &deps {
+                n2::verif::trace_push(format!(
+                    "deps {} {}",
+                    id,
+                    if ds.is_empty() {
+                        "-".to_string()
+                    } else {
+                        ds.iter().map(|d| hex(d.as_bytes())).collect::<Vec<_>>().join(";")
+                    }
+                ));
             }
         }
         n2::verif::FinishInfo {
@@ -395,6 +428,9 @@ pub fn hist_line(line: &str) -> String {
                     sh.manifest_seen.clear();
                     refresh_graph(&mut sh);
                 }
+                let mut files0 = Vec::new();
+                tree_listing(Path::new("."), "", &mut files0);
+                let db0 = std::fs::read(".n2_db").ok();
                 n2::verif::set_executor(Some(Box::new(Exec(shared.clone()))));
                 n2::verif::set_progress(Some(Box::new(Sink(shared.clone()))));
                 n2::verif::trace_begin();
@@ -421,7 +457,12 @@ pub fn hist_line(line: &str) -> String {
                 tree_listing(Path::new("."), "", &mut files);
                 let db = std::fs::read(".n2_db").unwrap_or_default();
                 report.push(format!(
-                    "INV result={} started={} trace={} graphs={} files={} db={} printed={}",
+                    "INV files0={} db0={} result={} started={} trace={} graphs={} files={} db={} printed={}",
+                    files0.join(","),
+                    match &db0 {
+                        Some(b) => hex(b),
+                        None => "none".to_string(),
+                    },
                     res,
                     sh.started
                         .iter()
